@@ -62,6 +62,20 @@ theorem lookup_mem {k : α} {v : β} {l : List (α × β)} (h : lookup k l = som
     · simp [h2] at h; subst h2; subst h; simp
     · simp [h2] at h; exact List.mem_cons_of_mem _ (ih h)
 
+theorem lookup_of_mem_nodup {a : α} {b : β} {l : List (α × β)} (hnd : (l.map (·.1)).Nodup)
+    (he : (a, b) ∈ l) : lookup a l = some b := by
+  induction l with
+  | nil => cases he
+  | cons x l ih =>
+    obtain ⟨xa, xb⟩ := x
+    rw [lookup_cons]
+    simp only [List.map_cons, List.nodup_cons] at hnd
+    rcases List.mem_cons.1 he with he | he
+    · cases he; simp
+    · have hne : xa ≠ a := fun e => hnd.1 (by rw [e]; exact List.mem_map.2 ⟨(a, b), he, rfl⟩)
+      simp only [hne, if_false]
+      exact ih hnd.2 he
+
 theorem map_fst_erase (k : α) (l : List (α × β)) :
     (erase k l).map (·.1) = (l.map (·.1)).filter (fun a => !decide (a = k)) := by
   unfold erase
@@ -482,5 +496,147 @@ theorem run_refines (answer : Handle → SendResult) {s : State} (hI : Inv s) (o
     simp only [run, Spec.run]
     rw [← h1.1, ← h1.2]
     exact ⟨h2.1, by rw [h2.2]⟩
+
+/-! ### what a history *means*, stated without maps
+
+`Hist.of h` reads a history of calls directly: who is present, to which peer each key was last
+assigned (forgotten when that peer is removed: its keys go with it), and at which call the current
+assignment of the key was made (re-attaching a key to the peer that already has it is not a new
+assignment). -/
+
+structure Hist where
+  n : Nat := 0
+  present : Nat → Bool := fun _ => false
+  owner : Key → Option Nat := fun _ => none
+  since : Key → Nat := fun _ => 0
+
+def Hist.step (H : Hist) : Op → Hist
+  | .insert q _ => { H with n := H.n + 1, present := fun x => decide (x = q) || H.present x }
+  | .remove q => { H with n := H.n + 1, present := fun x => !decide (x = q) && H.present x,
+                          owner := fun k => if H.owner k = some q then none else H.owner k }
+  | .alias q k =>
+    if H.present q = true ∧ H.owner k ≠ some q then
+      { H with n := H.n + 1, owner := fun k' => if k' = k then some q else H.owner k',
+               since := fun k' => if k' = k then H.n else H.since k' }
+    else { H with n := H.n + 1 }
+  | _ => { H with n := H.n + 1 }
+
+def Hist.of (h : List Op) : Hist := h.foldl Hist.step {}
+
+structure Coupled (s : State) (H : Hist) : Prop where
+  inv : Inv s
+  present : ∀ p, s.present p = H.present p
+  owner : ∀ k, lookup k s.aliases = H.owner k
+  sorted : ∀ p, (aliasesFor s p).Pairwise (fun a b => H.since a < H.since b)
+  bound : ∀ p k, k ∈ aliasesFor s p → H.since k < H.n
+
+theorem coupled_empty : Coupled State.empty {} :=
+  ⟨inv_empty, fun _ => rfl, fun _ => rfl, by simp [State.empty, aliasesFor], by simp [State.empty, aliasesFor]⟩
+
+theorem coupled_step (answer : Handle → SendResult) {s : State} {H : Hist} (c : Coupled s H) (op : Op) :
+    Coupled (step answer s op).1 (H.step op) := by
+  have bump : Coupled s { H with n := H.n + 1 } :=
+    ⟨c.inv, c.present, c.owner, c.sorted, fun p k hk => Nat.lt_succ_of_lt (c.bound p k hk)⟩
+  cases op with
+  | insert id tag =>
+    refine ⟨inv_insert c.inv id tag, fun p => ?_, c.owner, c.sorted,
+      fun p k hk => Nat.lt_succ_of_lt (c.bound p k hk)⟩
+    have := c.present p
+    simp only [State.present, step, insert, lookup_put, Hist.step] at this ⊢
+    by_cases h : id = p
+    · simp [h]
+    · simp [h, Ne.symm h, this]
+  | remove id =>
+    obtain ⟨_, hpeers, hA, hK⟩ := remove_eqs c.inv id
+    refine ⟨inv_remove c.inv id, fun p => ?_, fun k => ?_, fun p => ?_, fun p k hk => ?_⟩
+    · have := c.present p
+      simp only [State.present, step, hpeers, lookup_erase, Hist.step] at this ⊢
+      by_cases h : id = p
+      · simp [h]
+      · simp [h, Ne.symm h, this]
+    · simp only [step, Hist.step, hA, c.owner]
+    · simp only [step, Hist.step, hK]
+      by_cases h : p = id
+      · simp [h]
+      · simp only [h, if_false]; exact c.sorted p
+    · simp only [step, Hist.step, hK] at hk ⊢
+      by_cases h : p = id
+      · simp [h] at hk
+      · simp only [h, if_false] at hk; exact Nat.lt_succ_of_lt (c.bound p k hk)
+  | alias id k =>
+    cases hp : s.present id with
+    | false =>
+      have hp' : H.present id = false := by rw [← c.present, hp]
+      simp only [step, alias_absent s id k hp, Hist.step, hp', Bool.false_eq_true, false_and, if_false]
+      exact bump
+    | true =>
+      have hp' : H.present id = true := by rw [← c.present, hp]
+      obtain ⟨_, hpeers, hA, hK⟩ := alias_present c.inv k hp
+      by_cases hin : k ∈ aliasesFor s id
+      · have hown : H.owner k = some id := by rw [← c.owner]; exact (c.inv.fwd k id).2 hin
+        simp only [hin, if_true] at hK
+        simp only [step, Hist.step, hown, ne_eq, not_true, and_false, if_false]
+        refine ⟨inv_alias c.inv id k, fun p => ?_, fun k' => ?_, fun p => ?_, fun p k' hk => ?_⟩
+        · simp only [State.present, hpeers]; exact c.present p
+        · rw [hA]
+          by_cases h : k = k'
+          · subst h; simp [hown]
+          · simp [h, c.owner]
+        · rw [hK]; exact c.sorted p
+        · rw [hK] at hk; exact Nat.lt_succ_of_lt (c.bound p k' hk)
+      · have hown : H.owner k ≠ some id := by
+          rw [← c.owner]; exact fun e => hin ((c.inv.fwd k id).1 e)
+        simp only [hin, if_false] at hK
+        simp only [step, Hist.step, hp', hown, ne_eq, not_false_eq_true, and_self, if_true]
+        refine ⟨inv_alias c.inv id k, fun p => ?_, fun k' => ?_, fun p => ?_, fun p k' hk => ?_⟩
+        · simp only [State.present, hpeers]; exact c.present p
+        · rw [hA]
+          by_cases h : k = k'
+          · subst h; simp
+          · simp [h, Ne.symm h, c.owner]
+        · rw [hK]
+          by_cases hq : p = id
+          · subst hq
+            simp only [if_true]
+            rw [List.pairwise_append]
+            refine ⟨(c.sorted p).imp_of_mem ?_, by simp, ?_⟩
+            · intro a b ha hb hab
+              have ha' : a ≠ k := fun e => hin (e ▸ ha)
+              have hb' : b ≠ k := fun e => hin (e ▸ hb)
+              simpa [ha', hb'] using hab
+            · intro a ha b hb
+              simp at hb; subst hb
+              have ha' : a ≠ b := fun e => hin (e ▸ ha)
+              simpa [ha'] using c.bound p a ha
+          · simp only [hq, if_false]
+            refine ((c.sorted p).filter _).imp_of_mem ?_
+            intro a b ha hb hab
+            have ha' : a ≠ k := by simpa using (List.mem_filter.1 ha).2
+            have hb' : b ≠ k := by simpa using (List.mem_filter.1 hb).2
+            simpa [ha', hb'] using hab
+        · rw [hK] at hk
+          by_cases hk' : k' = k
+          · simp [hk']
+          · simp only [hk', if_false]
+            by_cases hq : p = id
+            · simp only [hq, if_true, List.mem_append, List.mem_singleton, hk', or_false] at hk
+              exact Nat.lt_succ_of_lt (c.bound id k' hk)
+            · simp only [hq, if_false] at hk
+              exact Nat.lt_succ_of_lt (c.bound p k' (List.mem_filter.1 hk).1)
+  | get id => exact bump
+  | getBy k => exact bump
+  | keyFor id => exact bump
+  | aliasesFor id => exact bump
+  | len => exact bump
+  | broadcast p f b => exact bump
+
+theorem coupled_run (answer : Handle → SendResult) {s : State} {H : Hist} (c : Coupled s H) (ops : List Op) :
+    Coupled (run answer s ops).1 (ops.foldl Hist.step H) := by
+  induction ops generalizing s H with
+  | nil => exact c
+  | cons op ops ih => simp only [run, List.foldl_cons]; exact ih (coupled_step answer c op)
+
+theorem coupled_after (h : List Op) : Coupled (after h) (Hist.of h) :=
+  coupled_run _ coupled_empty h
 
 end Repe.Peers
